@@ -6,3 +6,11 @@ import ShmVerif.Proof.QueueC
 import ShmVerif.Props.C04
 import ShmVerif.Tie.C04
 import ShmVerif.Drv.C04
+import ShmVerif.Model.FreeListC
+import ShmVerif.Proof.FreeListGeom
+import ShmVerif.Proof.FreeListSeq
+import ShmVerif.Proof.FreeListInit
+import ShmVerif.Props.C01
+import ShmVerif.Props.C02
+import ShmVerif.Tie.C01
+import ShmVerif.Drv.C01
